@@ -706,8 +706,16 @@ func checkConvertHelper(p *Program, r *Report, name, target string) {
 					drawEv = ev
 				case ev.Kind == "invoke" && ev.Fn == "Bounds":
 					boundsEv = ev
-				case ev.Kind == "call" || ev.Kind == "invoke" || ev.Kind == "store":
+				case ev.Kind == "store":
 					extra++
+				case ev.Kind == "call" || ev.Kind == "invoke":
+					// what is done with the images counts; reading the environment (GOMAXPROCS …) does not
+					for _, v := range append([]Val{ev.Recv}, ev.Args...) {
+						if v != nil && (strings.Contains(valKey(v), "img") || strings.Contains(valKey(v), "newimg#")) {
+							extra++
+							break
+						}
+					}
 				}
 			}
 			good := newEv != nil && drawEv != nil && boundsEv != nil && extra == 0 && valKey(boundsEv.Recv) == "img" && valKey(newEv.Args[0]) == valKey(boundsEv.Res)
